@@ -22,6 +22,25 @@ def decode(method, raw):
         return b"<undecodable>"
     return None
 
+def span_problem(base, new, oldraw):
+    """every old entry's local header + name + extra + stored bytes must be the very same bytes at the same place"""
+    if oldraw is None or not new:
+        return None
+    for k, e in enumerate(oldraw["entries"]):
+        if e is None:
+            continue
+        try:
+            hoff, cs = int(e["meta"][10]), int(e["meta"][4])
+        except Exception:
+            continue
+        if base[hoff:hoff + 4] != b"PK\x03\x04" or hoff + 30 > len(base):
+            continue
+        n, m = struct.unpack("<HH", base[hoff + 26:hoff + 30])
+        end = hoff + 30 + n + m + cs
+        if base[hoff:end] != new[hoff:end]:
+            return "old entry %d: the bytes of its local header / data at %d..%d were modified by the append" % (k, hoff, end)
+    return None
+
 class C13(C01):
     pid = "C13"
     rule = ("histories base -> (append k_i entries, optionally replace the comment, finish)* with 0..4 rounds (thorough: 8); "
@@ -30,7 +49,8 @@ class C13(C01):
             "CP437 names; DOS/Unix made-by; encrypted entry among plain ones; entry comments), CPython zipfile; thorough adds a "
             "65,537-entry base.  Every round is one writer program run on the crate and on the model (new_append + calls), "
             "bytes compared; oracle after every round: by_index_raw of the crate on the old and the new archive: same number "
-            "of old entries, in order, same name / method / sizes / CRC / time / mode / raw bytes / header offset; new entries "
+            "of old entries, in order, same name / method / sizes / CRC / time / mode / raw bytes / header offset, and the byte span "
+            "local header..end of data of every old entry identical at the same place; new entries "
             "follow in call order and decode (CPython zlib/bz2) to what was written; archive comment = replacement or the "
             "previous one; crate-origin histories are also judged by the strict validator.  "
             "non-trivial = a round on a non-empty base or adding >= 1 entry; distinct = distinct archive bytes")
@@ -112,7 +132,8 @@ class C13(C01):
             new_raw = rawlist(exe, news)
             for i, p, l, o, d, nr in zip(act, progs, lines, outs, news, new_raw):
                 h = hist[i]
-                cases.append((l, dict(base=h["base"], round=rnd, ops=p["ops"], old=prev_raw[i], new=nr, strict=h["strict"], nold=len(h["cur"]))))
+                cases.append((l, dict(base=h["base"], round=rnd, ops=p["ops"], old=prev_raw[i], new=nr, strict=h["strict"], nold=len(h["cur"]),
+                                      span=span_problem(h["cur"], d, prev_raw[i]))))
                 calls, _ = wprog.final_bytes(o)
                 fin_ok = calls is not None and isinstance(calls[-1], list) and calls[-1][0] == "Ok"
                 if fin_ok and d:
@@ -135,6 +156,8 @@ class C13(C01):
         for op, c in zip(ops, calls):
             if not (isinstance(c, list) and c[0] == "Ok"):
                 return "a legal %s call failed while appending: %s" % (op[0], c)
+        if meta.get("span"):
+            return meta["span"]
         old, new = meta["old"], meta["new"]
         if old is None:
             return None          # the base was not readable by the crate in the first place
